@@ -10,6 +10,7 @@ import (
 	"fmt"
 	"math"
 	"sync"
+	"sync/atomic"
 	"time"
 
 	tally "github.com/uber-go/tally/v4"
@@ -135,11 +136,16 @@ func c09Exec(c *c09Case) (out c09Out) {
 		if l == Stutter {
 			return
 		}
-		for g := 0; g < 2000 && l == Blocked; g++ {
+		if l == Blocked {
+			// no goroutine ever parks inside a critical section of the getters: a blocked
+			// first-use call is a deadlock (the classification comes from the runtime's
+			// goroutine status, not from elapsed time)
 			if out.Fail == "" {
 				out.Fail = "a first-use call blocked on a lock although no goroutine was inside a critical section (deadlock?)"
 			}
-			l = ctl.Step(i)
+			for g := 0; g < 200 && l == Blocked; g++ {
+				l = ctl.Step(i)
+			}
 		}
 		out.Labels = append(out.Labels, int64(l))
 		out.Sched = append(out.Sched, i)
@@ -326,6 +332,17 @@ func init() {
 			}
 		}
 		if ctx.Replay != nil {
+			var sp struct {
+				Storm  bool `json:"storm"`
+				Rounds int  `json:"rounds"`
+			}
+			if json.Unmarshal(ctx.Replay, &sp) == nil && sp.Storm {
+				ctx.Case(sp, "", "uncontrolled-first-use-rounds", "")
+				if f := c09Storm(sp.Rounds*4, 8); f != "" {
+					ctx.Fail("one_object_per_identity_allocate_once_all_delivered", f, sp, nil)
+				}
+				return
+			}
 			var c c09Case
 			if err := json.Unmarshal(ctx.Replay, &c); err != nil {
 				fatal(err)
@@ -373,8 +390,10 @@ func init() {
 		m := ctx.N(200, 4000)
 		for k := 0; k < m; k++ {
 			rc := c07Gen(ctx.R, ctx.Thorough())
-			rc.San = false // raw = sanitized spelling: one registry key, hence one shard, per identity
-			rc.Shards = []int{1, 2, 16}[ctx.R.Intn(3)]
+			rc.Shards = []int{1, 1, 2, 16}[ctx.R.Intn(4)]
+			if rc.Shards > 1 {
+				rc.San = false // raw = sanitized spelling: one registry key, hence one shard, per identity
+			}
 			for ti := range rc.Progs {
 				var p []regOp
 				for _, o := range rc.Progs[ti] {
@@ -405,5 +424,94 @@ func init() {
 			}
 		}
 		ctx.Res.Schedules = nsched
+		// uncontrolled: goroutines really first-use the same fresh name at once (spin barrier)
+		rounds := ctx.N(300, 6000)
+		if f := c09Storm(rounds, 8); f != "" {
+			ctx.Fail("one_object_per_identity_allocate_once_all_delivered", f, map[string]interface{}{"storm": true, "rounds": rounds}, nil)
+		}
+		ctx.Res.Evaluations += rounds
+		ctx.Res.Histogram["uncontrolled-first-use-rounds"] += rounds
 	}
+}
+
+// c09Storm: per round G goroutines pass a spin barrier and ask one live scope for the same,
+// never used before, metric; they must all get one object, the cached reporter's Allocate must be
+// called once, and what they record must be delivered.
+func c09Storm(rounds, G int) string {
+	log := &Log{}
+	root, closer := tally.VerifNewRootScope(tally.ScopeOptions{OmitCardinalityMetrics: true,
+		CachedReporter: &RecCached{L: log, Caps: caps{true, true}}}, 0, 2)
+	defer closer.Close()
+	scope := root.SubScope("storm")
+	ids := make([]string, G)
+	for r := 0; r < rounds; r++ {
+		kind := r % 4
+		name := fmt.Sprintf("m%d", r)
+		var arrived int32
+		var wg sync.WaitGroup
+		for g := 0; g < G; g++ {
+			g := g
+			wg.Add(1)
+			go func() {
+				defer wg.Done()
+				atomic.AddInt32(&arrived, 1)
+				for atomic.LoadInt32(&arrived) < int32(G) {
+				}
+				switch kind {
+				case 0:
+					c := scope.Counter(name)
+					ids[g] = fmt.Sprintf("%p", c)
+					c.Inc(1)
+				case 1:
+					x := scope.Gauge(name)
+					ids[g] = fmt.Sprintf("%p", x)
+					x.Update(7)
+				case 2:
+					t := scope.Timer(name)
+					ids[g] = fmt.Sprintf("%p", t)
+					t.Record(time.Nanosecond)
+				case 3:
+					h := scope.Histogram(name, tally.ValueBuckets{1, 2})
+					ids[g] = fmt.Sprintf("%p", h)
+					h.RecordValue(1.5)
+				}
+			}()
+		}
+		wg.Wait()
+		for g := 1; g < G; g++ {
+			if ids[g] != ids[0] {
+				return fmt.Sprintf("round %d: %d goroutines asked the same scope for %s %q at once and got different objects", r, G, []string{"counter", "gauge", "timer", "histogram"}[kind], name)
+			}
+		}
+	}
+	tally.VerifReportOnce(root)
+	allocs := map[string]int{}
+	handle := map[int64]string{}
+	bucket := map[int64]string{}
+	del := map[string]int64{}
+	for _, e := range log.Snapshot() {
+		switch e.K {
+		case 11, 12, 13, 14:
+			allocs[e.S[0]]++
+			handle[e.I[0]] = e.S[0]
+		case 24:
+			bucket[e.I[3]] = handle[e.I[0]]
+		case 21:
+			del[handle[e.I[0]]] += e.I[1]
+		case 23:
+			del[handle[e.I[0]]]++
+		case 26:
+			del[bucket[e.I[0]]] += e.I[1]
+		}
+	}
+	for r := 0; r < rounds; r++ {
+		name := fmt.Sprintf("storm.m%d", r)
+		if allocs[name] != 1 {
+			return fmt.Sprintf("Allocate was called %d times for %q (first use by %d goroutines at once)", allocs[name], name, G)
+		}
+		if k := r % 4; k != 1 && del[name] != int64(G) {
+			return fmt.Sprintf("%q: %d goroutines recorded once each through the handles they got, %d delivered", name, G, del[name])
+		}
+	}
+	return ""
 }
